@@ -114,13 +114,13 @@ void run_ring(const Workload& w, Result& res) {
         case R_POP_BACK: if (present[i] && !m[i].vals.empty()) { r[i]->pop_back(); m[i].vals.pop_back(); did = true; } break;
         case R_CLEAR: if (present[i]) { r[i]->clear(); m[i].vals.clear(); did = true; } break;
         case R_COPY_CTOR:
-            if (present[j] && m[j].allocated) {
+            if (present[j]) {   // (also from a buffer without storage)
                 auto t = std::make_unique<RB>(*r[j]); Model mm = m[j];
                 r[i] = std::move(t); m[i] = mm; present[i] = true; did = true;
             }
             break;
         case R_COPY_ASSIGN:
-            if (present[i] && present[j] && m[j].allocated) { *r[i] = *r[j]; Model mm = m[j]; m[i] = mm; did = true; }
+            if (present[i] && present[j]) { *r[i] = *r[j]; Model mm = m[j]; m[i] = mm; did = true; }
             break;
         case R_MOVE_CTOR:
             if (present[j] && i != j) {
@@ -292,7 +292,11 @@ void execute(const Workload& w, Result& res) {
     case P_SV_NOINIT_DESTROY: res.probe("sv_noinit_destroy"); run_sv<int, tlx::SimpleVectorMode::NoInitButDestroy>(w, res); break;
     default: res.probe("sv_noinit_nodestroy"); run_sv<int, tlx::SimpleVectorMode::NoInitNoDestroy>(w, res); break;
     }
-    sim::alloc_env().finish();
+    // C16 speaks about elements (alive iff stored), not about storage blocks: a block that is never returned
+    // is counted, not judged; releasing a block twice / through the wrong allocator / writing to a released
+    // block is undefined behaviour and is judged
+    sim::alloc_env().finish(false);
+    if (sim::alloc_env().leaked_blocks()) res.probe("beyond_c16.storage_block_not_returned", sim::alloc_env().leaked_blocks());
     for (auto& e : sim::alloc_env().errors()) res.fail("alloc_ledger", e);
     if (sim::alloc_env().recycled()) res.probe("recycled_blocks", sim::alloc_env().recycled());
 }
